@@ -24,7 +24,7 @@ pub fn def() -> PropDef {
     PropDef {
         id: "C07",
         level: "model_checking",
-        rule: "explicit-state search over {import read-only Ni, import write Ni, local insert Ni, local delete Ni, remote insert Ni (validly signed), reopen the store} on a file-backed Store, and over the same events plus {open Ni, close Ni, export secret Ni} through the store actor (SyncHandle; reopen = shutdown, reopen the file, respawn), for two documents; model: per document the maximum capability ever imported; after every event list_namespaces kinds, export_secret_key, the outcome of every write attempt and both documents' entries are compared with the model; canonical state = (listed kinds, entries, open handles, exportability); non-trivial = histories in which a read-only import or a reopen follows a write import",
+        rule: "explicit-state search over {import read-only Ni, import write Ni, local insert Ni, local delete Ni, remote insert Ni (validly signed), reopen the store, list documents, list authors} on a file-backed Store, and over the same events plus {open Ni, close Ni, export secret Ni} through the store actor (SyncHandle; reopen = shutdown, reopen the file, respawn), for two documents; model: per document the maximum capability ever imported; after every event list_namespaces kinds, export_secret_key, the outcome of every write attempt and both documents' entries are compared with the model; canonical state = (listed kinds, entries, open handles, exportability); non-trivial = histories in which a read-only import or a reopen follows a write import",
         assumptions: &["two documents, one author, one local key and one remote key per document"],
         bound: |t| match t {
             Tier::Quick => json!({"direct": "depth <= 7 (11 events)", "actor": "depth <= 6 (17 events)"}),
@@ -47,6 +47,10 @@ pub enum Ev {
     Close(u8),
     Export(u8),
     Reopen,
+    /// list the documents (leaves the store on a read snapshot)
+    List,
+    /// list the authors (same)
+    ListAuthors,
 }
 
 #[derive(Debug, Clone, Copy, PartialEq, Eq, PartialOrd, Ord)]
@@ -134,6 +138,7 @@ fn exec_direct(hist: &[Ev]) -> Option<(Bad, String, String)> {
     let mut m: [Doc; 2] = Default::default();
     let mut bad: Bad = vec![];
     let mut observed = String::new();
+    let mut txn_kind = "none";
     let downgrade_attempted = |h: &[Ev], i: u8| {
         let mut seen_w = false;
         h.iter().any(|e| match e {
@@ -219,9 +224,30 @@ fn exec_direct(hist: &[Ev]) -> Option<(Bad, String, String)> {
                 sut = Sut::persistent(&path).expect("reopen");
                 observed = "Reopen".into();
             }
+            Ev::List => {
+                let got = listed(&mut sut.store);
+                let want = model_listed(&m);
+                observed = format!("List->{got:?}");
+                if got != want {
+                    step_bad.push((
+                        "listed_capabilities_equal_max_imported",
+                        json!({"after": "List"}),
+                        format!("List: listed={got:?} model={want:?}"),
+                    ));
+                }
+            }
+            Ev::ListAuthors => {
+                let n = sut.store.list_authors().map(|i| i.count()).unwrap_or(99);
+                observed = format!("ListAuthors->{n}");
+            }
             _ => return None,
         }
-        // after every step: listing and entries
+        // the observations below touch the store (and change which kind of transaction it holds),
+        // so they are made after the last event only; every prefix is explored on its own
+        if !last {
+            continue;
+        }
+        txn_kind = sut.store.verif_transaction_kind();
         let got = listed(&mut sut.store);
         let want = model_listed(&m);
         if got != want {
@@ -246,8 +272,10 @@ fn exec_direct(hist: &[Ev]) -> Option<(Bad, String, String)> {
             bad.extend(step_bad);
         }
     }
+    // the kind of transaction the store holds is hidden state that later operations may depend
+    // on, so it is part of the canonical state
     let key = format!(
-        "{:?}|{}|{}",
+        "{txn_kind}|{:?}|{}|{}",
         listed(&mut sut.store),
         show_entries(&sut.dump(ns_id(0))),
         show_entries(&sut.dump(ns_id(1)))
@@ -371,6 +399,46 @@ fn exec_actor(hist: &[Ev]) -> Option<(Bad, String, String)> {
                 }
                 observed = "Reopen".into();
             }
+            Ev::List => {
+                let got: Result<Vec<(u8, Cap)>, String> = block_on(async {
+                    let (tx, mut rx) = irpc::channel::mpsc::channel(64);
+                    h.list_replicas(tx).await.map_err(|e| format!("{e:#}"))?;
+                    let mut v = vec![];
+                    loop {
+                        match rx.recv().await {
+                            Ok(Some(Ok(r))) => v.push((
+                                if r.id == ns_id(0) { 0u8 } else { 1u8 },
+                                match r.capability {
+                                    CapabilityKind::Read => Cap::Read,
+                                    CapabilityKind::Write => Cap::Write,
+                                },
+                            )),
+                            Ok(Some(Err(e))) => return Err(format!("{e}")),
+                            Ok(None) => break,
+                            Err(e) => return Err(format!("{e}")),
+                        }
+                    }
+                    v.sort();
+                    Ok(v)
+                });
+                let want = model_listed(&m);
+                observed = format!("List->{got:?}");
+                if got.as_ref().ok() != Some(&want) {
+                    step_bad.push((
+                        "listed_capabilities_equal_max_imported",
+                        json!({"actor": true, "after": "List"}),
+                        format!("List: listed={got:?} model={want:?}"),
+                    ));
+                }
+            }
+            Ev::ListAuthors => {
+                let _ = block_on(async {
+                    let (tx, mut rx) = irpc::channel::mpsc::channel(64);
+                    let _ = h.list_authors(tx).await;
+                    while let Ok(Some(_)) = rx.recv().await {}
+                });
+                observed = "ListAuthors".into();
+            }
         }
         if last {
             bad.extend(step_bad);
@@ -420,6 +488,8 @@ fn exec_actor(hist: &[Ev]) -> Option<(Bad, String, String)> {
         key.push_str(&show_entries(&dump));
     }
     key.push_str(&format!("{got:?}"));
+    // hidden state of the actor's store: a listing leaves it on a read snapshot
+    key.push_str(&format!("|last_was_listing={}", matches!(hist.last(), Some(Ev::List | Ev::ListAuthors))));
     drop(s2);
     Some((bad, key, observed))
 }
@@ -433,6 +503,8 @@ fn events(actor: bool) -> Vec<Ev> {
         }
     }
     v.push(Ev::Reopen);
+    v.push(Ev::List);
+    v.push(Ev::ListAuthors);
     v
 }
 
